@@ -57,7 +57,11 @@ RULE = (
     "deserialize, serialize result, pop result, items dict) x 2 flavours x 2 contents: re-binding edits of the result must "
     "leave the operand equal to its model; combo = reserved word x special character, every class representative together "
     "with a mask token in 9 position pairs, 6 two-feature names at each level; derived = 8 kinds of objects handed out by "
-    "the library x 4 storing operations x 2 flavours, target and source compared with their models."
+    "the library x 4 storing operations x 2 flavours, target and source compared with their models; sizes = ladders of "
+    "5 contents of growing size per level (columns are prefixes of one another) x 2 flavours: == / != for all ordered "
+    "pairs in 4 parse states and x.update(y) for all ordered pairs (y built / lazy) vs dict semantics; precedence = a value "
+    "given in two places (stored name vs key, explicit mask vs '.'/'?' token, masked_value option vs default, row_count "
+    "argument vs column length), both present and different next to one present, vs the documented precedence."
 )
 ASSUMPTIONS = [
     "the strings '.' and '?' are generated only in the mask role (biotite infers the mask from the bare tokens)",
@@ -129,7 +133,10 @@ def bounds(tier):
                          "result": {"scenarios": RESULT_SCENARIOS},
                          "combo": {"reserved_x_special": len(RESERVED_COMBOS), "mask_position_pairs": len(COMBO_MASK_POSITIONS),
                                    "names": NAME_COMBOS},
-                         "derived": {"sources": DERIVED_SOURCES, "sinks": DERIVED_SINKS}},
+                         "derived": {"sources": DERIVED_SOURCES, "sinks": DERIVED_SINKS},
+                         "sizes": {"ladder_lengths": {lv: len(size_ladder(lv, "text")) for lv in LEVELS},
+                                   "operations": ["== / != in 4 parse states, all ordered pairs", "x.update(y), y built / lazy"]},
+                         "precedence": {"cases": len(PRECEDENCE_CASES)}},
     }
 
 
@@ -1689,7 +1696,7 @@ def replay(case, ctx):
 # aliasing of inputs and outputs, reuse of one object for several writes.  Oracles: the round-trip identity
 # of the statement, `==` with a freshly built object, "a call does not change its arguments".
 # ===========================================================================
-DIM_FAMILIES = ["wide", "many", "flavour", "alias", "reuse", "result", "combo", "derived"]
+DIM_FAMILIES = ["wide", "many", "flavour", "alias", "reuse", "result", "combo", "derived", "sizes", "precedence"]
 WIDE_LENGTHS = [1, 9, 10, 11, 63, 64, 65, 99, 100, 101, 255, 256, 257, 1000, 4096]
 WIDE_TEMPLATES = ["plain", "space", "squote", "multiline", "hash"]
 WIDE_POSITIONS = [(1, 1, 0, 0), (2, 2, 0, 0), (2, 2, 0, 1), (2, 2, 1, 1), (3, 3, 1, 1)]
@@ -1876,6 +1883,19 @@ def dim_cases(family, tier, letter):
             for src in DERIVED_SOURCES[fl]:
                 for sink in DERIVED_SINKS:
                     yield {"family": "derived", "fl": fl, "source": src, "sink": sink}
+    elif family == "sizes":
+        for fl in FLAVOURS:
+            for level in LEVELS:
+                n = len(size_ladder(level, fl))
+                for i in range(n):
+                    for j in range(n):
+                        for cx, cy in PARSE_COMBOS:
+                            yield {"family": "sizes", "sub": "eq", "fl": fl, "level": level, "i": i, "j": j, "x": cx, "y": cy}
+                        for ystate in ("built", "lazy"):
+                            yield {"family": "sizes", "sub": "update", "fl": fl, "level": level, "i": i, "j": j, "y": ystate}
+    elif family == "precedence":
+        for c in PRECEDENCE_CASES:
+            yield dict(c, family="precedence")
     else:
         raise ValueError(family)
     _ = q
@@ -1902,7 +1922,7 @@ DATA_FLAVOURS = {
     "zero_d_ndarray": ("single", "either"),
 }
 MASK_FLAVOURS = ["none", "list_int", "list_enum", "tuple", "ndarray_uint8", "ndarray_int64", "ndarray_noncontiguous",
-                 "ndarray_readonly", "cifdata", "scalar", "all_present_list", "wrong_length"]
+                 "ndarray_readonly", "cifdata", "scalar", "all_present_list", "wrong_length", "wrong_length_short"]
 BIN_DATA_FLAVOURS = {
     "list": "str", "ndarray_U": "str", "ints_int64": "int",  # the flavours the container part uses: ACCEPT
     "tuple": "either", "ndarray_noncontiguous": "either", "ndarray_readonly": "either", "ndarray_object": "refuse",
@@ -2009,6 +2029,8 @@ def make_mask(name, n):
         return pdbx.MaskValue.MISSING, [MISSING]
     if name == "all_present_list":
         return [PRESENT] * n, [PRESENT] * n
+    if name == "wrong_length_short":
+        return [PRESENT] * (n - 1) if n > 1 else [PRESENT, PRESENT, PRESENT], None
     if name == "wrong_length":
         return [PRESENT] * (n + 1), None
     raise ValueError(name)
@@ -2500,7 +2522,8 @@ def check_dim(ctx, case, letter=None):
     case = dict(case, kind="dim", letter=letter)
     fam = case["family"]
     {"wide": check_wide, "many": check_many, "flavour": check_flavour, "alias": check_alias, "reuse": check_reuse,
-     "result": check_result, "combo": check_combo, "derived": check_derived}[fam](ctx, case, letter)
+     "result": check_result, "combo": check_combo, "derived": check_derived, "sizes": check_sizes,
+     "precedence": check_precedence}[fam](ctx, case, letter)
 
 
 def run_dim(shard, ctx):
@@ -2756,4 +2779,192 @@ def check_derived(ctx, case, letter):
             ctx.violation(sig + label, "a container holding an object handed out by the library differs from the model", case,
                           expected=w_, observed=_first_diff(w_, g_))
             return
+    ctx.count("accepted")
+
+
+# ---- third audit: operands of different size in both directions (F), a value given in two places (H) ---------
+def size_ladder(level, flavour):
+    """Contents of growing size; the columns are prefixes of one another, so that a comparison or an assignment
+    which only looks at the part both operands have cannot tell them apart."""
+    r1 = ("col", "str", ("x",), "fresh")
+    r2 = ("col", "str", ("x", "y z"), "fresh")
+    r3 = ("col", "str", ("x", "y z", "?"), "fresh")
+    cats = [{"p": r1}, {"p": r2}, {"p": r2, "pq": r2}, {"p": r3}, {"p": r3, "pq": r3, "q": r3}]
+    if level == "category":
+        return cats
+    blocks = [{}, {"s": cats[1]}, {"s": cats[1], "s_t": cats[0]}, {"s": cats[1], "s_t": cats[0], "u": cats[3]},
+              {"s": cats[3]}]
+    if level == "block":
+        return blocks
+    return [{}, {"a": blocks[1]}, {"a": blocks[1], "ab": blocks[2]}, {"a": blocks[1], "ab": blocks[2], "_c": blocks[0]},
+            {"a": blocks[3]}]
+
+
+def check_sizes(ctx, case, letter):
+    fl, level = case["fl"], case["level"]
+    lad = size_ladder(level, fl)
+    mi, mj = lad[case["i"]], lad[case["j"]]
+    ctx.ev(1, 1)
+    rel = "same" if case["i"] == case["j"] else ("second_larger" if case["j"] > case["i"] else "second_smaller")
+    try:
+        if case["sub"] == "eq":
+            x = parsed_operand(serialized(mi, level, fl), level, fl, case["x"] == "accessed")
+            y = parsed_operand(serialized(mj, level, fl), level, fl, case["y"] == "accessed")
+            want = case["i"] == case["j"]
+            r1, r2, r3 = x == y, y == x, x != y
+            ctx.outcome(("sizes", fl, level, case["i"], case["j"], bool(r1)))
+            if not (bool(r1) is want and bool(r2) is want and bool(r3) is (not want)):
+                ctx.violation("sizes|%s.%s|eq|%s|%s_%s" % (fl, level, rel, case["x"], case["y"]),
+                              "== / != of two containers of different size disagrees with dict equality", case,
+                              expected=[want, want, not want], observed=[repr(r1), repr(r2), repr(r3)])
+                return
+            ctx.count("accepted")
+            return
+        # x.update(y): y may be larger than x and hold keys x lacks
+        x = build(mi, level, fl)
+        root = embed(x, level, fl)
+        y = build(mj, level, fl) if case["y"] == "built" else parsed_operand(serialized(mj, level, fl), level, fl, False)
+        x.update(y)
+        model = dict(mi)
+        model.update(mj)
+        want = deep_expected(model, level)
+        got = deep(x, level, fl)
+        ygot = deep(y, level, fl)
+        written = None
+        if all(cat_serialisable(c) for c in all_categories(model, level)):
+            written = deep(descend(parsed_operand(serialized_root(root, fl), "file", fl, False), level), level, fl)
+    except Exception as e:  # noqa: BLE001
+        ctx.violation("sizes|%s.%s|%s|%s|raises_%s" % (fl, level, case["sub"], rel, type(e).__name__),
+                      "operation on two containers of different size raised", case, "success", type(e).__name__)
+        return
+    ctx.outcome(("sizes", "update", fl, level, case["i"], case["j"]))
+    for label, g_, w_ in (("target", got, want), ("argument_changed", ygot, deep_expected(mj, level)), ("target_written", written, want)):
+        if g_ is not None and g_ != w_:
+            ctx.violation("sizes|%s.%s|update|%s|%s" % (fl, level, rel, label),
+                          "x.update(y) with a second container of another size differs from dict.update", case,
+                          expected=w_, observed=_first_diff(w_, g_))
+            return
+    ctx.count("accepted")
+
+
+def _precedence_cases():
+    out = []
+    for lvl in ("category", "block"):
+        for via in ("ctor", "setitem"):
+            out.append({"sub": "name_vs_key", "level": lvl, "via": via})
+    out.append({"sub": "name_only"})
+    for fl in FLAVOURS:
+        for data, mk in (("x", MISSING), (".", MISSING), ("?", INAPPLICABLE), ("x", INAPPLICABLE), (".", PRESENT), ("?", PRESENT),
+                         (".", INAPPLICABLE), ("?", MISSING)):
+            for n in (1, 2):
+                out.append({"sub": "mask_vs_token", "fl": fl, "data": data, "mask": mk, "n": n})
+        for dtype in ("str", "int"):
+            for mv in ("default", "given"):
+                out.append({"sub": "masked_value", "fl": fl, "dtype": dtype, "masked_value": mv})
+    for rc in ("none", "equal", "smaller", "larger"):
+        for rows in (1, 2, 3):
+            out.append({"sub": "row_count_argument", "row_count": rc, "rows": rows})
+    return out
+
+
+PRECEDENCE_CASES = _precedence_cases()
+
+
+def check_precedence(ctx, case, letter):
+    """A value that can be given in two places: both present and different, next to only one present.
+    Oracle: the documented precedence; undocumented combinations are counted as unspecified."""
+    import biotite.structure.io.pdbx as pdbx
+
+    sub = case["sub"]
+    ctx.ev(1, 1)
+    sig = "precedence|" + sub + "|"
+    try:
+        if sub == "name_vs_key":
+            # documented: the name is "automatically set when the category / block is added" to its parent
+            lvl, via = case["level"], case["via"]
+            cat = pdbx.CIFCategory({"k": [letter, letter + " " + letter]}, name="other_cat" if lvl == "category" else None)
+            if lvl == "category":
+                blk = pdbx.CIFBlock({"key_cat": cat}) if via == "ctor" else pdbx.CIFBlock()
+                if via == "setitem":
+                    blk["key_cat"] = cat
+                f = pdbx.CIFFile({"B": blk})
+                fm = {"B": {"key_cat": {"k": fm_col([letter, letter + " " + letter])}}}
+            else:
+                blk = pdbx.CIFBlock({"c": cat}, name="other_blk")
+                f = pdbx.CIFFile({"key_blk": blk}) if via == "ctor" else pdbx.CIFFile()
+                if via == "setitem":
+                    f["key_blk"] = blk
+                fm = {"key_blk": {"c": {"k": fm_col([letter, letter + " " + letter])}}}
+            got = [deep(pdbx.CIFFile.deserialize(f.serialize()), "file", "text") for _ in range(2)]
+            want = [deep_expected(fm, "file")] * 2
+            tail = "%s|%s" % (lvl, via)
+        elif sub == "name_only":
+            cat = pdbx.CIFCategory({"k": [letter, "."]}, name="given_name")
+            back = pdbx.CIFCategory.deserialize(cat.serialize())
+            got, want = [back.name, deep(back, "category", "text")], ["given_name", deep_expected({"k": fm_col([letter, "."])}, "category")]
+            tail = "category_serialize"
+        elif sub == "mask_vs_token":
+            fl, data, mk, n = case["fl"], case["data"], case["mask"], case["n"]
+            Data, Col, Cat, Blk, Fil = _classes(fl)
+            cells = [data] + [letter] * (n - 1)
+            masks = [mk] + [PRESENT] * (n - 1)
+            col = Col(cells if fl == "text" else np.array(cells), np.array(masks, dtype=np.uint8))
+            tok = {PRESENT: data, INAPPLICABLE: ".", MISSING: "?"}[mk]
+            want = [([tok] + [letter] * (n - 1), masks)] * 2
+            live = observe_col(col, fl)
+            f = Fil({"B": Blk({"c": Cat({"k": col})})})
+            back = parsed_operand(serialized_root(f, fl), "file", fl, False)["B"]["c"]["k"]
+            parsed = observe_col(back, fl)
+            got = [(list(live[1]), list(live[2])), (list(parsed[1]), list(parsed[2]))]
+            tail = "%s|data_%s|mask_%d" % (fl, {".": "dot", "?": "qmark"}.get(data, "plain"), mk)
+            if fl == "text" and mk == PRESENT and data in (".", "?"):
+                # a present '.' / '?' string cannot be told from the mask state in a bare CIF token: unspecified
+                ctx.count("unspecified")
+                ctx.count("precedence_present_token_%s" % ("kept" if got == want else "becomes_mask"))
+                return
+        elif sub == "masked_value":
+            fl, dtype, mv = case["fl"], case["dtype"], case["masked_value"]
+            Data, Col, Cat, Blk, Fil = _classes(fl)
+            raw = ["5", "6", "7"]
+            masks = [PRESENT, INAPPLICABLE, MISSING]
+            data = raw if fl == "text" else (np.array(raw) if dtype == "str" else np.array([5, 6, 7]))
+            col = Col(data, np.array(masks, dtype=np.uint8))
+            f = Fil({"B": Blk({"c": Cat({"k": col})})})
+            back = parsed_operand(serialized_root(f, fl), "file", fl, False)["B"]["c"]["k"]
+            got, want = [], []
+            for c in (col, back):
+                if dtype == "str":
+                    a = c.as_array(str, masked_value="N") if mv == "given" else c.as_array(str)
+                    got.append([str(v) for v in a])
+                    want.append(["5", "N", "N"] if mv == "given" else ["5", ".", "?"])
+                else:
+                    a = c.as_array(int, masked_value=-1) if mv == "given" else c.as_array(int)
+                    got.append([int(v) for v in a] if mv == "given" else [int(a[0]), len(a)])
+                    want.append([5, -1, -1] if mv == "given" else [5, 3])  # default for numbers: only present cells demanded
+            tail = "%s|%s|%s" % (fl, dtype, mv)
+        elif sub == "row_count_argument":
+            rows = case["rows"]
+            rc = {"none": None, "equal": rows, "smaller": rows - 1, "larger": rows + 2}[case["row_count"]]
+            cells = [letter + str(i) for i in range(rows)]
+            cat = pdbx.BinaryCIFCategory({"k": np.array(cells)}, row_count=rc)
+            f = pdbx.BinaryCIFFile({"B": pdbx.BinaryCIFBlock({"c": cat})})
+            fm = {"B": {"c": {"k": fm_col(cells)}}}
+            back = parsed_operand(serialized_root(f, "bin"), "file", "bin", False)
+            got, want = [deep(back, "file", "bin")], [deep_expected(fm, "file")]
+            if case["row_count"] in ("smaller", "larger"):
+                ctx.count("unspecified")
+                ctx.count("precedence_row_count_argument_%s" % ("columns_win" if back["B"]["c"].row_count == rows else "argument_wins"))
+            elif back["B"]["c"].row_count != rows:
+                got.append(back["B"]["c"].row_count)
+                want.append(rows)
+            tail = "bin|%s" % case["row_count"]
+        else:
+            raise ValueError(sub)
+    except Exception as e:  # noqa: BLE001
+        ctx.violation(sig + "raises_" + type(e).__name__, "precedence scenario raised", case, "success", type(e).__name__)
+        return
+    ctx.outcome(("precedence", tail, str(got)[:100]))
+    if got != want:
+        ctx.violation(sig + tail, "a value given in two places is not resolved as documented", case, expected=want, observed=got)
+        return
     ctx.count("accepted")
